@@ -805,3 +805,295 @@ Proof.
       * change (N.eqb 46 45) with false in Sp. cbv iota in Sp.
         destruct (sp_tagged post_words (46%N :: g0 :: gt)) as [[[[] n]|] r']; inversion Sp; subst; reflexivity.
 Qed.
+
+Lemma dev_stage e rs rg e3 rest3 dev s5 :
+  Rrel rs rg -> ascii rg ->
+  parse_dev e rg = (e3, rest3) -> sp_dev rs = (dev, s5) ->
+  match dev with Some n => n < two63 | None => True end ->
+  Rrel s5 rest3 /\ ascii rest3 /\
+  make_ext e3 = match dev with Some n => set_dev (make_ext e) n | None => make_ext e end /\
+  match dev with Some n => 0 <= n | None => True end.
+Proof.
+  intros R A G Sp W. unfold sp_dev, sp_tagged in Sp. rewrite (Rrel_input rs rg R) in Sp.
+  unfold parse_dev in G.
+  destruct rg as [|g0 gt].
+  - apply Rrel_nil in R. subst rs. inversion G; subst.
+    change (allow_sep []) with (@nil N) in Sp. rewrite (first_word_nil _ dev_words_alpha) in Sp.
+    inversion Sp; subst. repeat split; auto. left; reflexivity.
+  - set (input := allow_sep (g0 :: gt)) in *.
+    pose proof (dev_first_word input) as T.
+    destruct (has_ascii_prefix input Pep440Parse.s_dev);
+      destruct (first_word dev_words input) as [[[] r]|]; try contradiction.
+    + subst r.
+      assert (Ar : ascii (skipn 3 input)) by (apply ascii_skipn, ascii_allow_sep; auto).
+      destruct (span_digits (opt_sep (skipn 3 input))) as [d s4] eqn:Sd.
+      inversion Sp; subst dev s5. cbv beta iota in W.
+      pose proof (tagged_number _ Ar) as Tn. rewrite Sd in Tn. cbn [fst snd] in Tn. rewrite (Tn W) in G.
+      inversion G; subst. repeat split; auto.
+      * left; reflexivity.
+      * pose proof (ascii_span_digits _ (ascii_opt_sep _ Ar)) as X. rewrite Sd in X. exact X.
+      * apply sp_int_nonneg.
+    + inversion G; subst. inversion Sp; subst. repeat split; auto.
+Qed.
+
+(* ---------- local ---------- *)
+Lemma span_alnum_app s : s = fst (span_alnum s) ++ snd (span_alnum s).
+Proof.
+  induction s as [|c t IH]; simpl; auto. destruct (sp_alnum c); simpl; auto.
+  destruct (span_alnum t); simpl in *. congruence.
+Qed.
+
+Lemma span_alnum_alnum s : forallb sp_alnum (fst (span_alnum s)) = true.
+Proof.
+  induction s as [|c t IH]; cbn [span_alnum]; auto. destruct (sp_alnum c) eqn:E; auto.
+  destruct (span_alnum t) as [d r]; cbn [fst forallb] in *. rewrite E. auto.
+Qed.
+
+Lemma alnum_local_char c : sp_alnum c = true -> local_char c = true /\ dash_to_dot c = c.
+Proof.
+  unfold sp_alnum, local_char, is_alnum, dash_to_dot, is_digit, sp_alpha, is_alpha. intros H.
+  destruct (N.eqb_spec c 46), (N.eqb_spec c 45), (N.eqb_spec c 95); subst; try discriminate; simpl; auto.
+Qed.
+
+Lemma sep_local_char c : sp_sep c = true -> local_char c = true /\ dash_to_dot c = 46%N.
+Proof.
+  unfold sp_sep, local_char, dash_to_dot.
+  destruct (N.eqb_spec c 46), (N.eqb_spec c 45), (N.eqb_spec c 95); subst; try discriminate; simpl; auto.
+Qed.
+
+Lemma map_dash_alnum a : forallb sp_alnum a = true -> map dash_to_dot a = a /\ forallb local_char a = true.
+Proof.
+  induction a as [|c a IH]; simpl; auto. intros H. apply andb_true_iff in H. destruct H as [Hc Ha].
+  destruct (alnum_local_char c Hc) as [L D]. destruct (IH Ha) as [M F]. rewrite D, M, L, F. auto.
+Qed.
+
+Lemma last_app_cons {A} (a : list A) x b d : last (a ++ x :: b) d = last (x :: b) d.
+Proof. induction a as [|y a IH]; auto. simpl app. simpl last. destruct (a ++ x :: b) eqn:E; auto.
+  apply app_eq_nil in E. destruct E; discriminate. Qed.
+
+Lemma last_alnum y : forall x, forallb sp_alnum (x :: y) = true -> is_alnum (last (x :: y) 0%N) = true.
+Proof.
+  induction y as [|z y IH]; intros x H; cbn [last].
+  - cbn [forallb] in H. apply andb_true_iff in H. tauto.
+  - apply IH. cbn [forallb] in H. apply andb_true_iff in H. tauto.
+Qed.
+
+Lemma sp_segs_inv f : forall t l, sp_segs f t = Some (l, []) ->
+  t <> [] /\ forallb local_char t = true /\
+  is_alnum (hd 0%N t) = true /\ is_alnum (last t 0%N) = true /\
+  map dash_to_dot t = join_dots l /\ l <> [] /\ Forall (fun x => seg_ok x = true) l.
+Proof.
+  induction f as [|f IH]; intros t l H; [discriminate|].
+  cbn [sp_segs] in H.
+  pose proof (span_alnum_app t) as App. pose proof (span_alnum_alnum t) as Al.
+  destruct (span_alnum t) as [a r]. cbn [fst snd] in *.
+  destruct a as [|a0 a']; [discriminate|]. set (a := a0 :: a') in *.
+  assert (Hseg : seg_ok a = true) by (unfold seg_ok; rewrite Al; reflexivity).
+  destruct (map_dash_alnum a Al) as [Ma Fa].
+  assert (Ha0 : is_alnum a0 = true) by (cbn [forallb] in Al; apply andb_true_iff in Al; tauto).
+  destruct r as [|c r'].
+  - inversion H; subst l. rewrite app_nil_r in App. subst t.
+    repeat split; auto; try discriminate.
+    + apply last_alnum; auto.
+    + rewrite Ma. symmetry. apply join_dots_one.
+  - destruct (sp_sep c) eqn:Sc; [|inversion H].
+    destruct (sp_segs f r') as [[l' r'']|] eqn:S'; [|inversion H].
+    inversion H; subst l r''.
+    destruct (IH r' l' S') as (Hne & Fr & Hh & Hl & Mr & Ll & Ok).
+    destruct (sep_local_char c Sc) as [Lc Dc].
+    subst t. repeat split; try discriminate.
+    + rewrite forallb_app. rewrite Fa. cbn [forallb]. rewrite Lc, Fr. reflexivity.
+    + exact Ha0.
+    + rewrite last_app_cons. destruct r' as [|x y]; [congruence|]. exact Hl.
+    + rewrite map_app. cbn [map]. rewrite Ma, Dc, Mr.
+      destruct l' as [|y l'']; [congruence|]. reflexivity.
+    + constructor; auto.
+Qed.
+
+Lemma local_stage e x e4 r4 loc :
+  parse_local e x = Ok (e4, r4) -> sp_local x = Some (loc, []) ->
+  r4 = [] /\
+  make_ext e4 = match loc with Some l => set_local (make_ext e) (join_dots l) | None => make_ext e end /\
+  match loc with Some l => l <> [] /\ Forall (fun t => seg_ok t = true) l | None => True end.
+Proof.
+  unfold parse_local, sp_local.
+  destruct x as [|c0 t].
+  - intros G S. inversion G; inversion S; subst. auto.
+  - destruct (N.eqb_spec c0 43) as [->|Hc]; [|intros _ S; inversion S].
+    destruct (sp_segs (S (length t)) t) as [[l r]|] eqn:Sg; [|discriminate].
+    intros G S. inversion S; subst loc r.
+    destruct (sp_segs_inv _ _ _ Sg) as (Hne & Fl & Hh & Hl & Mp & Ll & Ok).
+    destruct t as [|c1 t']; [congruence|].
+    cbn [negb N.eqb Pos.eqb] in G. rewrite Fl in G. cbn [hd] in Hh. rewrite Hh, Hl in G. cbn in G.
+    change (dash_to_dot c1 :: map dash_to_dot t') with (map dash_to_dot (c1 :: t')) in G. rewrite Mp in G.
+    inversion G; subst. auto.
+Qed.
+
+(* ---------- when the reference still holds a dot, a letter must follow ---------- *)
+Lemma tagged_dot_none {X} (ws : list (bytes * X)) rg :
+  Forall (fun wx => exists p w, fst wx = p :: w /\ (97 <= p <= 122)%N) ws ->
+  ~ alpha_start rg -> sp_tagged ws (46%N :: rg) = (None, 46%N :: rg).
+Proof.
+  intros Hws Hn. unfold sp_tagged. change (opt_sep (46%N :: rg)) with rg.
+  destruct (first_word ws rg) as [[x r]|] eqn:E; auto.
+  exfalso. apply Hn. eapply first_word_alpha; eauto.
+Qed.
+
+Lemma spec_tail_dot rg pre s3 post s4 dev s5 loc :
+  sp_pre (46%N :: rg) = (pre, s3) -> sp_post s3 = (post, s4) -> sp_dev s4 = (dev, s5) ->
+  sp_local s5 = Some (loc, []) -> alpha_start rg.
+Proof.
+  intros Hp Hq Hd Hl.
+  destruct rg as [|c t].
+  - exfalso. assert (N : ~ alpha_start []) by (intros (c & t & E & _); discriminate).
+    unfold sp_pre in Hp. rewrite (tagged_dot_none _ _ pre_words_alpha N) in Hp. inversion Hp; subst.
+    unfold sp_post in Hq. rewrite (tagged_dot_none _ _ post_words_alpha N) in Hq.
+    change (N.eqb 46 45) with false in Hq. cbv iota in Hq. inversion Hq; subst.
+    unfold sp_dev in Hd. rewrite (tagged_dot_none _ _ dev_words_alpha N) in Hd. inversion Hd; subst.
+    discriminate Hl.
+  - destruct (sp_alpha c) eqn:Ac; [exists c, t; auto|].
+    exfalso. assert (N : ~ alpha_start (c :: t)) by (intros (c' & t' & E & A'); inversion E; subst; congruence).
+    unfold sp_pre in Hp. rewrite (tagged_dot_none _ _ pre_words_alpha N) in Hp. inversion Hp; subst.
+    unfold sp_post in Hq. rewrite (tagged_dot_none _ _ post_words_alpha N) in Hq.
+    change (N.eqb 46 45) with false in Hq. cbv iota in Hq. inversion Hq; subst.
+    unfold sp_dev in Hd. rewrite (tagged_dot_none _ _ dev_words_alpha N) in Hd. inversion Hd; subst.
+    discriminate Hl.
+Qed.
+
+Lemma release_ascii g : forall s first nums rest, ascii s -> release g s first = Ok (nums, rest) -> ascii rest.
+Proof.
+  induction g as [|g IH]; intros s first nums rest A R; [discriminate|].
+  cbn [release] in R. destruct s as [|x s']; [inversion R; constructor|].
+  pose proof (segment_app (x :: s')) as App.
+  destruct (segment (x :: s')) as [seg rest0]. cbn [fst snd] in App.
+  assert (A0 : ascii rest0) by (rewrite App in A; eapply ascii_app_r; eauto).
+  destruct seg as [|y seg']; [inversion R; subst; auto|].
+  destruct (seg_value (y :: seg') first); [|discriminate].
+  destruct rest0 as [|c rest']; [inversion R; subst; auto|].
+  destruct (N.eqb c 46); [|inversion R; subst; auto].
+  destruct rest' as [|c' r'']; [discriminate|].
+  destruct (release g (c' :: r'') false) as [[l rr]| | |] eqn:R'; cbn [bind fst snd] in R; try discriminate.
+  inversion R; subst. assert (A1 : ascii (c' :: r'')) by (inversion A0; auto).
+  apply (IH _ _ _ _ A1 R').
+Qed.
+
+Lemma parse_epoch_ascii c e0 i1 : ascii c -> parse_epoch c = Ok (e0, i1) -> ascii i1.
+Proof.
+  unfold parse_epoch. intros A. pose proof (split_at_byte_spec 33 c) as Sp.
+  destruct (split_at_byte 33 c) as [[[|c0 before] after]|].
+  - intros E; inversion E; subst; auto.
+  - destruct Sp as [-> _]. destruct (digits_val (c0 :: before) 0); [|discriminate].
+    destruct (z <=? 255); [|discriminate]. intros E; inversion E; subst.
+    apply ascii_app_r in A. inversion A; auto.
+  - intros E; inversion E; subst; auto.
+Qed.
+
+Lemma ascii_strip_v s : ascii s -> ascii (strip_v s).
+Proof. intros A. destruct s as [|c t]; simpl; auto. destruct (N.eqb c 118 || N.eqb c 86); auto. inversion A; auto. Qed.
+
+Lemma dom_width_inv p : c02_dom_width p = true ->
+  match s_pre p with Some (_, n) => n < two63 | None => True end /\
+  match s_post p with Some n => n < two63 | None => True end /\
+  match s_dev p with Some n => n < two63 | None => True end.
+Proof.
+  unfold c02_dom_width. intros H. repeat (apply andb_true_iff in H; destruct H as [H ?]).
+  repeat split.
+  - destruct (s_pre p) as [[k n]|]; auto. apply Z.ltb_lt; auto.
+  - destruct (s_post p); auto. apply Z.ltb_lt; auto.
+  - destruct (s_dev p); auto. apply Z.ltb_lt; auto.
+Qed.
+
+(* ---------- the link ---------- *)
+Theorem parse_link s v p :
+  parse_pypi s = Ok v -> spec_parse s = Some p -> c02_dom_width p = true ->
+  abs_rel (v_num v, ext_of v) p /\ pv_wf p.
+Proof.
+  intros G Sp W.
+  unfold parse_pypi in G. destruct (possible_pypi s) eqn:P; [|discriminate]. cbn [negb] in G.
+  destruct (pep_init s) as [[[[[nums3 unc] vpre] ispre] e4]| | |] eqn:Init; cbn [bind] in G; try discriminate.
+  inversion G; subst v. clear G. unfold ext_of. cbn [v_num v_ext].
+  unfold spec_parse in Sp. destruct (is_ascii s) eqn:As; [|discriminate].
+  unfold pep_init in Init.
+  destruct (chars_ok (trim_space s)) eqn:Ck; [|discriminate]. cbn [negb] in Init.
+  rewrite (cores_equal s As P Ck) in Sp.
+  assert (Ac : ascii (trim_space s)).
+  { destruct (possible_first s P) as (c & t & -> & Hc).
+    assert (Hg : go_ws c = false) by (destruct (go_ws c) eqn:E; auto; apply go_ws_sp_ws in E; congruence).
+    rewrite (trim_space_ascii c t (is_ascii_ascii _ As) Hg). apply ascii_dwe. apply is_ascii_ascii; auto. }
+  set (c := trim_space s) in *.
+  destruct (parse_epoch c) as [[e0 input1]| | |] eqn:Ep; cbn [bind] in Init; try discriminate.
+  destruct (release (S (length (strip_v input1))) (strip_v input1) true) as [[nums rest]| | |] eqn:Rl;
+    cbn [bind] in Init; try discriminate.
+  destruct nums as [|n0 nums']; [discriminate|]. set (nums := n0 :: nums') in *.
+  destruct (parse_pre e0 rest) as [[e1 vpre'] rest1] eqn:Gpre.
+  destruct (parse_post e1 rest1) as [e2 rest2] eqn:Gpost.
+  destruct (parse_dev e2 rest2) as [e3 rest3] eqn:Gdev.
+  destruct (parse_local e3 rest3) as [[e4' rest4]| | |] eqn:Gloc; cbn [bind] in Init; try discriminate.
+  destruct rest4; [|discriminate]. inversion Init; subst nums3 unc vpre ispre e4. clear Init.
+  (* the reference *)
+  unfold spec_core in Sp. rewrite sp_strip_v_strip_v in Sp.
+  destruct (sp_epoch (strip_v c)) as [ep s1] eqn:Sep.
+  destruct (sp_release (S (length s1)) s1) as [[rel s2]|] eqn:Srel; [|discriminate].
+  destruct (sp_pre s2) as [pre s3] eqn:Spre.
+  destruct (sp_post s3) as [post s4] eqn:Spost.
+  destruct (sp_dev s4) as [dev s5] eqn:Sdev.
+  destruct (sp_local s5) as [[loc [|x5 r5]]|] eqn:Sloc; try discriminate.
+  inversion Sp; subst p. clear Sp.
+  destruct (dom_width_inv _ W) as (Wpre & Wpost & Wdev). cbn [s_pre s_post s_dev] in Wpre, Wpost, Wdev.
+  (* epoch *)
+  destruct (epoch_stage c e0 input1 ep s1 _ rel s2 _ nums rest Ep Sep Srel Rl ltac:(discriminate)) as (E1 & Eep & Hep).
+  assert (A1 : ascii s1).
+  { rewrite <- E1. apply ascii_strip_v. eapply parse_epoch_ascii; eauto. }
+  rewrite E1 in Rl.
+  (* release *)
+  assert (Arest : ascii rest) by (eapply release_ascii; eauto).
+  destruct (release_stage (length s1) _ s1 true rel s2 nums rest A1 (le_n _) Srel Rl) as [(En & Nrel & Hrest)|(t & Es2)].
+  2:{ exfalso. subst s2.
+      assert (N : ~ alpha_start (42%N :: t)) by (intros (c' & t' & E & A'); inversion E; subst; discriminate).
+      pose proof (spec_tail_dot _ _ _ _ _ _ _ _ Spre Spost Sdev Sloc). contradiction. }
+  assert (R2 : Rrel s2 rest).
+  { destruct Hrest as [->|[-> Hne]]; [left; reflexivity|].
+    right. split; auto. eapply spec_tail_dot; eauto. }
+  (* pre, post, dev *)
+  destruct (pre_stage e0 s2 rest e1 vpre' rest1 pre s3 R2 Arest Gpre Spre Wpre) as (R3 & A3 & Epre & Wfpre).
+  destruct (post_stage e1 s3 rest1 e2 rest2 post s4 R3 A3 Gpost Spost Wpost) as (R4 & A4 & Epost & Wfpost).
+  destruct (dev_stage e2 s4 rest2 e3 rest3 dev s5 R4 A4 Gdev Sdev Wdev) as (R5 & A5 & Edev & Wfdev).
+  (* local *)
+  assert (E5 : rest3 = s5).
+  { destruct R5 as [->|[E5 _]]; auto. exfalso. subst s5. discriminate Sloc. }
+  subst s5.
+  destruct (local_stage e3 rest3 e4' [] loc Gloc Sloc) as (_ & Eloc & Wfloc).
+  split.
+  - split; cbn [fst snd].
+    + unfold go_nums. cbn [s_release]. rewrite En. reflexivity.
+    + rewrite Eloc, Edev, Epost, Epre, Eep. unfold go_ext. cbn [s_epoch s_pre s_post s_dev s_local].
+      destruct loc, dev, post, pre as [[k n]|]; reflexivity.
+  - split; cbn [s_epoch s_release s_pre s_post s_dev s_local]; auto.
+    + intros k n E; inversion E; subst. exact Wfpre.
+    + intros n E; inversion E; subst. exact Wfpost.
+    + intros n E; inversion E; subst. exact Wfdev.
+    + intros l E; inversion E; subst. exact Wfloc.
+Qed.
+
+Lemma dom_width_of p : c02_pypi_dom p = true -> c02_dom_width p = true.
+Proof. unfold c02_pypi_dom. intros H. apply andb_true_iff in H. tauto. Qed.
+
+(* On the domain, Go orders any two strings that both accept exactly as the reference does. *)
+Theorem c02_strings a b va vb pa pb :
+  parse_pypi a = Ok va -> parse_pypi b = Ok vb ->
+  spec_parse a = Some pa -> spec_parse b = Some pb ->
+  c02_pypi_dom pa = true -> c02_pypi_dom pb = true ->
+  Z.sgn (vcmp va vb) = spec_compare pa pb.
+Proof.
+  intros Ga Gb Sa Sb Da Db.
+  destruct (parse_link a va pa Ga Sa (dom_width_of pa Da)) as [Ra Wa].
+  destruct (parse_link b vb pb Gb Sb (dom_width_of pb Db)) as [Rb Wb].
+  destruct (parse_pypi_is_pypi _ _ Ga) as [Pa _], (parse_pypi_is_pypi _ _ Gb) as [Pb _].
+  rewrite (vcmp_pypi va vb Pa Pb).
+  apply c02_compare_abs; auto.
+Qed.
+
+(* every version of the grammar is well formed *)
+Lemma spec_parse_wf_when_go s v p :
+  parse_pypi s = Ok v -> spec_parse s = Some p -> c02_dom_width p = true -> pv_wf p.
+Proof. intros G S W. apply (parse_link s v p G S W). Qed.
